@@ -136,7 +136,7 @@ def measure_k(cfg, T, asize=2):
     return best[0]
 
 
-def make_driver(cfg, T, asize=2, K=None):
+def make_driver(cfg, T, asize=2, K=None, class_choice=True):
     if K is None:
         K = kmax(cfg)
     conv = to_nparray if cfg.get('conv') == 'nparray' else None
@@ -160,7 +160,9 @@ def make_driver(cfg, T, asize=2, K=None):
                 k = run.choose(K + 1, 'fault-position', None, 1, keep_default=True) if (attempt < 2 and K) else 0
                 before = snapshot(ex)
                 # the class of the user exception: an instance of all common built-in classes, or StopIteration
-                h.inj.exc_class = (Injected, InjectedStop, InjectedInterrupt)[run.choose(3, 'exception-class', None, 0) if k > 0 else 0]
+                # (pairs of faults: the class is a function of the position instead of a choice - keeps the tree at 1/9)
+                h.inj.exc_class = (Injected, InjectedStop, InjectedInterrupt)[
+                    (run.choose(3, 'exception-class', None, 0) if class_choice else k % 3) if k > 0 else 0]
                 h.inj.begin_call(armed=k if k > 0 else None)
                 try:
                     call(dict(x), y)
@@ -244,7 +246,7 @@ def run_task(task):
         if stats['faults']:
             agg['execs_with_fault'] += 1
     K = measure_k(cfg, T if cfg['kind'] == 'incremental' else T + 2)
-    drv = make_driver(cfg, T, K=K)
+    drv = make_driver(cfg, T, K=K, class_choice=(bound < 2))
     st = choice.explore(drv, on_leaf=on_leaf, bound=bound)
     dl = False
     if not st.violations:
@@ -304,7 +306,7 @@ def replay(data):
         cfg['alpha'] = F(cfg['alpha'])
     out = []
     for _ in range(2):
-        run, res, viol = choice.execute(make_driver(cfg, T, K=r.get('K')), tuple(r['prefix']),
+        run, res, viol = choice.execute(make_driver(cfg, T, K=r.get('K'), class_choice=(int(bound) < 2)), tuple(r['prefix']),
                                         default_last=bool(r.get('default_last')))
         out.append((viol.key, viol.what) if viol else None)
     if out[0] != out[1]:
